@@ -117,6 +117,9 @@ def c05_suites(tier, seed):
         random.Random(seed + 6).shuffle(ws)
         ws = ws[:60]
     s.append(("keep-window-40", hists_of(jgen.gen_keep_window(40, every_bucket=4, prefix="fw40", windows=ws))))
+    # the persisted free list swept across the length at which its page run changes (124 ids at page size 1024)
+    ns = list(range(214, 236, 2 if q else 1)) + ([460] if q else list(range(452, 470)))
+    s.append(("freelist-boundary", hists_of(jgen.gen_freelist_boundary(ns))))
     return s
 
 
@@ -1397,8 +1400,12 @@ def c13_runner(prop, tier, seed, scratch, spec):
         "samples": obs[:12],
         "traces_validated_against_impl": n_ok,
         "contended_opens": contended,
+        "interrupted_lock_waits": sum(1 for l in obs if " open-interrupted " in l),
         "scenarios": [n for n, _ in names],
     }
+    if not violations and any(n.startswith("s-signal") for n, _ in names) and cov["interrupted_lock_waits"] == 0:
+        rp = vlib.write_replay(prop, "coverage", [], {"broken": "the signal scenarios never interrupted a waiting opener (no open-interrupted observation): the EINTR path of the lock call was not exercised"})
+        violations.append((rp, "signal scenarios did not interrupt any lock wait", " no-failing-input-found"))
     return {"violations": violations[:4], "coverage": cov, "explored": len(names), "known": known}
 
 
